@@ -159,6 +159,25 @@ func runC16(c *ctx) {
 					b.obs = append(b.obs, obj{"cb": nil})
 				}
 			}
+			if r.chance(30) {
+				// a cluster response that is REJECTED as a whole (well-formed clusters with other thresholds next to an
+				// undecodable resource): the breakers - and the cache a later breaker starts from - stay as they are
+				var rej []*anypb.Any
+				for _, nm := range names[:2] {
+					rej = append(rej, clusterWithOutlier(nm, gOutlier{Present: true, Thr: 77, Vol: 7777}))
+				}
+				rej = append(rej, badAny("cds", r.intn(2)))
+				if r.bool() {
+					rej[0], rej[2] = rej[2], rej[0]
+				}
+				w.push(mkResp(xdsresource.ClusterTypeURL, fmt.Sprintf("rej-%d", u), fmt.Sprintf("rn%d", u+1), rej))
+				c.count("rejected-responses", 1)
+				for _, b := range brs {
+					if b.suite != nil {
+						b.obs[len(b.obs)-1].(obj)["afterRejected"] = dumpCB(b.suite)
+					}
+				}
+			}
 		}
 		for _, b := range brs {
 			if b.registerAt == nUpd {
